@@ -185,3 +185,25 @@ UNITS.append(Unit(
     cases=[Case("inside a quoted sheet name: characters are kept, '' stands for one quote, the closing quote ends the name without emitting a token",
                 lambda *a: True, lambda formula, offset, token, s, p, r, e, out: _path_step(formula, offset, token, out))],
     call=_step_call, native_call=_step_native, cross_key=_key, timeout_ms=20000))
+
+
+# ---- P2': the opening quote of a string literal / quoted sheet name only switches the mode ---------------------------------------------------
+def _open_step(q, flag):
+    def ens(formula, offset, token, s, p, r, e, out):
+        if out.kind != 'ret':
+            return False
+        o = out.value
+        return And(spec.eq(o['offset'], offset + 1), o[flag] is True or o[flag] == True, len(o['emitted']) == 0, spec.eq(o['token'], token))  # noqa
+    return ens
+
+
+for _q, _flag, _lab, _dom in (('"', 'inString', 'string literal', ['""""', '"""yes"""&A1', '"a"', '""&"x"', '"""', '=""']),
+                              ("'", 'inPath', 'quoted sheet name', ["'My Sheet'!A1", "'''x'!A1", "''''!B2"])):
+    UNITS.append(Unit(
+        id=f'C02/tokenizer.getTokens/open_{_flag}', target=TARGET,
+        inputs=[('formula', Prim('str', domain=_dom)), ('offset', Prim('int', domain=[0, 1])), ('token', Const('', 'no pending token')),
+                ('inString', Const(False, '-')), ('inPath', Const(False, '-')), ('inRange', Const(False, '-')), ('inError', Const(False, '-'))],
+        requires=(lambda q: lambda formula, offset, token, *f: And(offset >= 0, offset < S.length(formula), spec.eq(_char(formula, offset), q)))(_q),
+        cases=[Case(f'the opening quote of a {_lab} consumes exactly that one character and emits nothing, whatever follows it (the characters after it are the literal\'s own)',
+                    lambda *a: True, _open_step(_q, _flag))],
+        call=_step_call, native_call=_step_native, cross_key=_key, timeout_ms=20000))
